@@ -14,7 +14,11 @@ type Generator struct {
 	scopes         int
 	instructions   []Instruction
 	knownFunctions map[int]*SexpFunction
+	depth          int // nesting depth of the expression Generate is at
 }
+
+// MaxGenerateDepth is the nesting depth to which expressions are compiled.
+const MaxGenerateDepth = 10000
 
 type Loop struct {
 	stmtname       *SexpSymbol
@@ -43,6 +47,7 @@ func NewGenerator(env *Zlisp) *Generator {
 func (gen *Generator) NewSubGenerator() *Generator {
 	subgen := NewGenerator(gen.env)
 	subgen.knownFunctions = gen.knownFunctions
+	subgen.depth = gen.depth
 	return subgen
 }
 
@@ -971,6 +976,13 @@ func (gen *Generator) GenerateArray(arr *SexpArray) error {
 func (gen *Generator) Generate(expr Sexp) error {
 	if _, isComment := expr.(*SexpComment); isComment {
 		return nil
+	}
+	// a value handed to eval or returned by a macro can contain itself (see
+	// aset), so the descent has a bound instead of an end
+	gen.depth++
+	defer func() { gen.depth-- }()
+	if gen.depth > MaxGenerateDepth {
+		return fmt.Errorf("expression nested deeper than %d levels (a value that contains itself?)", MaxGenerateDepth)
 	}
 	switch e := expr.(type) {
 	case *SexpSymbol:
